@@ -137,5 +137,5 @@ func c20ConcExec(c c20ConcCase, x *pbt.Ctx) error {
 
 func TestC20Concurrent(t *testing.T) {
 	pbt.Run(t, "C20", "on each backend: a writer moves 2-64 records between two key groups under one prefix, one batch per move (50-400 moves, generated yield pattern), while 1-3 readers iterate over the prefix and count the keys of each group; oracle: every iteration sees all records in exactly one group, on LevelDB and on the in-memory backend alike; scheduler-chosen interleaving; non-trivial = more iterations than moves; distinct = case JSON",
-		pbt.Options{Sub: "batch-visibility", Journal: true, Checks: pbt.Per(30, 2000)}, c20ConcGen, c20ConcExec)
+		pbt.Options{Sub: "batch-visibility", Journal: true, Checks: pbt.Per(30, 600)}, c20ConcGen, c20ConcExec)
 }
